@@ -18,8 +18,10 @@ single-entry operation) are covered by these theorems.  The *partial* lookups be
 (`Opath.resolvePartial`, `KSimStack.walk_sim_stack`) and the kernel backend's probing of ever
 shorter prefixes (`Openat2.resolvePartial` over `Path.partialAncestors`, `KProbe.anc_probe`)
 hand `mkdir_all` the same directory and the same components to create, or the same error.
-The flag handling of the one-shot open is not proved equivalent here: for it the property is
-decided by the transcript tie plus the pairwise differential oracle of the check.
+The one-shot open (`open_subpath`) is covered by `C04_open_agree` (from `C01_open_subpath`): at the
+level of which object is opened or which errno is returned.  The *status flags* of the resulting
+descriptor (`F_GETFL`) are not represented in `World` and are decided by the transcript tie plus the
+pairwise differential oracle of the check.
 -/
 
 open K KRun World KSim KSpec
@@ -66,6 +68,29 @@ theorem C04_readlink_agree (hw : w.WF) (path : Bytes) (hnul : path.contains 0 = 
   rw [C01_readlink hw _ path hnul, C01_readlink hw _ path hnul]
   simp only [↓reduceIte, Bool.false_eq_true]
   rw [C04_spec_agree rflags true path hlinks h]
+
+/-! ### the one-shot open -/
+
+open KOpen in
+/-- **`Root::open_subpath` agrees on both backends** (object or errno) unless the kernel ran out of its link
+budget: the emulated resolve + inspect + re-open through procfs is the kernel's single `openat2` -/
+theorem C04_open_agree (hw : w.WF) (path : Bytes) (hnul : path.contains 0 = false) (rflags flags : Nat)
+    (hcf : (hasAny flags (O_CREAT ||| O_EXCL) || hasAll flags O_TMPFILE) = false)
+    (hlinks : w.kernelLinks ≤ MAX_SYMLINK_TRAVERSALS)
+    (h : resolveInRoot w (kcfgK w rflags (hasAll flags O_NOFOLLOW)) path ≠ .error ELOOP) :
+    Prog.run w (Resolver.openOnce (kenv w) { emulated := true, rflags } w.root path flags)
+      = Prog.run w (Resolver.openOnce (kenv w) { emulated := false, rflags } w.root path flags) := by
+  rw [C01_open_subpath hw _ path hnul flags hcf, C01_open_subpath hw _ path hnul flags hcf]
+  simp only [↓reduceIte, Bool.false_eq_true]
+  unfold openSpec
+  rw [C04_spec_agree rflags (hasAll flags O_NOFOLLOW) path hlinks h]
+
+/-- … and refuse creation flags alike -/
+theorem C04_open_agree_creation (path : Bytes) (rflags flags : Nat)
+    (hcf : (hasAny flags (O_CREAT ||| O_EXCL) || hasAll flags O_TMPFILE) = true) :
+    Prog.run w (Resolver.openOnce (kenv w) { emulated := true, rflags } w.root path flags)
+      = Prog.run w (Resolver.openOnce (kenv w) { emulated := false, rflags } w.root path flags) := by
+  rw [C01_open_subpath_creation _ path flags hcf, C01_open_subpath_creation _ path flags hcf]
 
 /-! ### partial lookups (`mkdir_all`) -/
 
